@@ -1000,25 +1000,105 @@ def _spec_seq_add(out, rng, count):
                     bump(out, "op_detail", sig)
 
 
+_B = "TCAG"
+_AA = "FFLLSSSSYY**CC*WLLLLPPPPHHQQRRRRIIIMTTTTNNKKSSRRVVVVAAAADDEEGGGG"
+STD_CODE = {a + b + c: _AA[16 * i + 4 * j + k] for i, a in enumerate(_B) for j, b in enumerate(_B) for k, c in enumerate(_B)}
+
+
+def _codons(v):
+    v = v.replace("U", "T")
+    return [v[i : i + 3] for i in range(0, len(v) - len(v) % 3, 3)]
+
+
+def _translatable(mt, cur):
+    """every sequence is canonical, a whole number (>= 1 after trimming) of codons, with no stop before the last codon:
+    the case in which 'translate' means one thing"""
+    if mt not in ("dna", "rna") or not cur:
+        return False
+    for v in cur.values():
+        cs = _codons(v)
+        if len(v) % 3 or not cs or any(c not in CANON[mt] for c in v) or any(STD_CODE[c] == "*" for c in cs[:-1]):
+            return False
+        if len(cs) == 1 and STD_CODE[cs[0]] == "*":
+            return False
+    return True
+
+
+def _renamer(kind, names):
+    """renaming functions: all names changed (suffix / prefix / upper on lower-case names), only some, or none"""
+    first = names[0] if names else None
+    return {"suffix": lambda n: n + "_", "prefix": lambda n: "q" + n, "upper": lambda n: n.upper(),
+            "first-only": lambda n: n + "x" if n == first else n, "identity": lambda n: n}[kind]
+
+
+def _seq_pred(kind, arg):
+    """predicates for take_seqs_if; they look at the DISPLAYED sequence"""
+    return {"len>": lambda s: len(s) > arg, "count-even": lambda s: str(s).count(arg) % 2 == 0,
+            "starts": lambda s: str(s)[:1] == arg}[kind]
+
+
 def _coll_spec(mt, cur, op):
-    """one collection operation on the plain strings"""
+    """one collection operation on the (name, string) rows"""
     k = op[0]
     if k == "take_seqs":
-        return mt, {n: cur[n] for n in ([n for n in cur if n not in op[1]] if op[2] else op[1])}
+        sel = [op[1]] if isinstance(op[1], str) else op[1]
+        return mt, {n: cur[n] for n in ([n for n in cur if n not in sel] if op[2] else sel)}
+    if k == "take_seqs_if":
+        f = _seq_pred(op[1], op[2])
+        res = {n: v for n, v in cur.items() if bool(f(v)) != op[3]}
+        if not res:
+            raise SpecNone()
+        return mt, res
+    if k == "rename_seqs":
+        f = _renamer(op[1], op[2])
+        return mt, {f(n): v for n, v in cur.items()}
     if k == "rc":
         tab = DNA_COMP if mt == "dna" else RNA_COMP
         return mt, {n: v[::-1].translate(tab) for n, v in cur.items()}
     if k in ("to_rna", "to_dna"):
         return _spec_apply(mt, cur, op)
+    if k == "to_moltype":
+        if op[1] == mt:
+            return mt, dict(cur)
+        return _spec_apply(mt, cur, ["to_rna"] if op[1] == "rna" else ["to_dna"])
     if k == "degap":
         return mt, {n: v.replace("-", "").replace("?", "") for n, v in cur.items()}
+    if k == "pad_seqs":
+        m = max(len(v) for v in cur.values()) + op[1]
+        return mt, {n: v + "-" * (m - len(v)) for n, v in cur.items()}
     if k == "add_seqs":
-        return mt, {**cur, **op[1]}
+        other, where, name = op[1], (op[2] if len(op) > 2 else "end"), (op[3] if len(op) > 3 else None)
+        if where == "end":
+            return mt, {**cur, **other}
+        res = {}
+        for n, v in cur.items():
+            if where == "before" and n == name:
+                res.update(other)
+            res[n] = v
+            if where == "after" and n == name:
+                res.update(other)
+        return mt, res
     if k == "add":
         return mt, {n: v + v for n, v in cur.items()}
     if k == "copy":
         return mt, dict(cur)
+    if k == "trim_stop_codons":
+        # a terminal stop codon (standard code) of a sequence that is a whole number of codons is removed
+        def trim(v):
+            cs = _codons(v)
+            return v[:-3] if cs and len(v) % 3 == 0 and STD_CODE.get(cs[-1]) == "*" else v
+
+        return mt, {n: trim(v) for n, v in cur.items()}
+    if k == "get_translation":
+        res = {}
+        for n, v in cur.items():
+            aa = "".join(STD_CODE[c] for c in _codons(v))
+            res[n] = aa[:-1] if aa.endswith("*") else aa
+        return "protein", res
     raise ValueError(k)
+
+
+NEW_LACKS = ("add", "copy")  # no `+` / copy / deepcopy on the new-style collection; its add_seqs only appends
 
 
 def _run_coll(out, impl, mt, seqs, ops):
@@ -1037,76 +1117,166 @@ def _run_coll(out, impl, mt, seqs, ops):
     for op in ops:
         done.append(op)
         k = op[0]
-        if impl == "new" and k in ("add", "copy"):
-            return True  # no `+` / copy on the new-style collection
-        cur_mt, cur = _coll_spec(cur_mt, cur, op)
+        if impl == "new" and (k in NEW_LACKS or (k == "add_seqs" and len(op) > 2 and op[2] != "end")):
+            return True
+        want_exc = None
+        try:
+            nmt, ncur = _coll_spec(cur_mt, cur, op)
+        except SpecNone:
+            want_exc = True
         out["evaluations"] += 1
         try:
             if k == "take_seqs":
                 c = c.take_seqs(op[1], negate=op[2])
+            elif k == "take_seqs_if":
+                c = c.take_seqs_if(_seq_pred(op[1], op[2]), negate=op[3])
+            elif k == "rename_seqs":
+                c = c.rename_seqs(_renamer(op[1], op[2]))
             elif k == "rc":
                 c = c.rc()
             elif k == "to_rna":
                 c = c.to_rna()
             elif k == "to_dna":
                 c = c.to_dna()
+            elif k == "to_moltype":
+                c = c.to_moltype(op[1])
             elif k == "degap":
                 c = c.degap()
+            elif k == "pad_seqs":
+                c = c.pad_seqs(pad_length=(max(len(v) for v in cur.values()) + op[1]) if op[1] else None)
             elif k == "add_seqs":
-                c = c.add_seqs(make(dict(op[1]), moltype=cur_mt) if impl == "old" else dict(op[1]))
+                kw = {} if len(op) < 3 or op[2] == "end" else {f"{op[2]}_name": op[3]}
+                c = c.add_seqs(make(dict(op[1]), moltype=cur_mt) if impl == "old" else dict(op[1]), **kw)
             elif k == "add":
                 c = c + c.take_seqs(op[1])
+            elif k == "trim_stop_codons":
+                c = c.trim_stop_codons()
+            elif k == "get_translation":
+                c = c.get_translation()
             elif op[1] == "rich_dict":
                 from cogent3.util.deserialise import deserialise_object
 
                 c = deserialise_object(c.to_rich_dict())
             else:
                 c = getattr(c, op[1])()
-            got, got_names = c.to_dict(), list(c.names)
+            if c is None or (isinstance(c, dict) and not c):
+                got, got_names = None, None
+            else:
+                got, got_names = c.to_dict(), list(c.names)
         except Exception as e:
             got, got_names = {"err": type(e).__name__}, None
-        sig = f"SequenceCollection:{impl}:{k}" + (":after-rc" if any(d[0] == "rc" for d in done[:-1]) else "")
-        if got != cur or (got_names is not None and got_names != list(cur)):
+        after_rc = any(d[0] == "rc" for d in done[:-1])
+        detail = f":{op[1]}" if k in ("rename_seqs", "take_seqs_if") else (f":{op[2]}" if k == "add_seqs" and len(op) > 2 else "")
+        sig = f"SequenceCollection:{impl}:{k}{detail}" + (":after-rc" if after_rc else "")
+        if want_exc:
+            # nothing selected: an empty result / None / a refusal are all acceptable, rows are not
+            if isinstance(got, dict) and got and "err" not in got:
+                add_failure(out, "spec", f"collection {k} returns sequences where the string operation selects none",
+                            dict(impl=impl, moltype=mt, seqs=seqs, ops=list(done)), "nothing", got, sig=sig + ":exc")
+                return False
+            bump(out, "coll_op", f"{impl}:{k}:nothing")
+            return True
+        if got != ncur or (got_names is not None and got_names != list(ncur)):
             add_failure(out, "spec", f"collection {k} differs from the same operation on the strings",
-                        dict(impl=impl, moltype=mt, seqs=seqs, ops=list(done)), cur, got, sig=sig)
+                        dict(impl=impl, moltype=mt, seqs=seqs, ops=list(done)), ncur, got, sig=sig)
             return False
+        cur_mt, cur = nmt, ncur
         bump(out, "coll_op", f"{impl}:{k}")
     return True
 
 
+def _rand_coll(rng):
+    mt = rng.choice(["dna", "dna", "rna", "protein"])
+    k = rng.randint(1, 5)
+    if mt != "protein" and rng.random() < 0.4:
+        # coding sequences: whole codons, canonical, some with a terminal stop codon
+        stops = ["TAA", "TAG", "TGA"]
+        seqs = {}
+        for i in range(k):
+            body = "".join(rng.choice([c for c in STD_CODE if STD_CODE[c] != "*"]) for _ in range(rng.randint(1, 4)))
+            v = body + (rng.choice(stops) if rng.random() < 0.5 else "")
+            seqs[f"s{i}"] = v.replace("T", "U") if mt == "rna" else v
+        return mt, seqs
+    return mt, {f"s{i}": _rand_row(rng, rng.randint(1, 14), mt, rng.choice([0.0, 0.0, 0.2])) for i in range(k)}
+
+
+def _rand_coll_op(rng, cur_mt, cur, n_done, for_new):
+    names = list(cur)
+    kinds = ["take_seqs", "take_seqs", "take_seqs_if", "rename_seqs", "rename_seqs", "rc", "rc", "rc", "to_xna", "to_moltype",
+             "degap", "pad_seqs", "add_seqs", "trim_stop_codons", "get_translation", "get_translation"]
+    if not for_new:
+        kinds += ["add", "copy", "add_seqs"]
+    k = rng.choice(kinds)
+    nucleic = cur_mt in ("dna", "rna")
+    if k in ("rc", "to_xna", "to_moltype", "trim_stop_codons") and not nucleic:
+        return None
+    if k == "take_seqs":
+        if rng.random() < 0.15:
+            return ["take_seqs", rng.choice(names), False]
+        sel = rng.sample(names, rng.randint(1, len(names)))
+        return ["take_seqs", sel, rng.random() < 0.3 and len(sel) < len(names)]
+    if k == "take_seqs_if":
+        kind = rng.choice(["len>", "count-even", "starts"])
+        lens = sorted(len(v) for v in cur.values())
+        arg = rng.choice(lens + [lens[0] - 1]) if kind == "len>" else rng.choice(CANON[cur_mt][:4])
+        return ["take_seqs_if", kind, arg, rng.random() < 0.3]
+    if k == "rename_seqs":
+        kind = rng.choice(["suffix", "suffix", "prefix", "upper", "first-only", "identity"])
+        f = _renamer(kind, names)
+        if len({f(n) for n in names}) < len(names):
+            return None
+        return ["rename_seqs", kind, names]
+    if k == "to_xna":
+        return ["to_rna"] if cur_mt == "dna" else ["to_dna"]
+    if k == "to_moltype":
+        return ["to_moltype", rng.choice(["dna", "rna"])]
+    if k == "pad_seqs":
+        return ["pad_seqs", rng.choice([0, 0, 1, 3])]
+    if k == "add_seqs":
+        fresh = [f"y{i}" for i in range(len(names) + 2) if f"y{i}" not in cur and f"y{i}".upper() not in cur]
+        other = {fresh[0]: _rand_row(rng, rng.randint(1, 9), cur_mt, 0.0)}
+        if for_new or rng.random() < 0.4:
+            return ["add_seqs", other, "end", None]
+        return ["add_seqs", other, rng.choice(["before", "after"]), rng.choice(names)]
+    if k == "add":
+        order = list(names)
+        rng.shuffle(order)
+        return ["add", order]
+    if k == "copy":
+        return ["copy", rng.choice(["deepcopy", "copy", "rich_dict"])]
+    if k == "trim_stop_codons":
+        # defined here for gap-free sequences (a stop followed by terminal gaps belongs to the alignment classes)
+        # and for non-empty ones (an empty sequence has no last codon to look at: both classes refuse)
+        return ["trim_stop_codons"] if all(v and not any(c in GAPS for c in v) for v in cur.values()) else None
+    if k == "get_translation":
+        return ["get_translation"] if _translatable(cur_mt, cur) else None
+    return [k]
+
+
 def _coll_histories(out, rng, count):
-    """the COLLECTION half of the property: histories of take_seqs (both polarities) / rc / to_rna / to_dna / degap /
-    add_seqs / `+` / copies on a plain SequenceCollection (ragged sequences, gaps and degenerates allowed), old and
-    new-style class, against the same operations on the strings"""
+    """the COLLECTION half of the property: histories of take_seqs (list / single name, both polarities) / take_seqs_if /
+    rename_seqs (all, some, no names changed) / rc / to_rna / to_dna / to_moltype / degap / pad_seqs / add_seqs (end, before,
+    after) / `+` / copies / trim_stop_codons / get_translation on a plain SequenceCollection (ragged sequences, gaps and
+    degenerates allowed; coding sequences with terminal stops), old and new-style class, against the same operations on the
+    (name, string) rows.  A history restricted to what the new-style class offers runs on both classes, a free one on the old."""
     for it in range(count):
-        mt = rng.choice(["dna", "dna", "rna", "protein"])
-        seqs = {f"s{i}": _rand_row(rng, rng.randint(1, 14), mt, rng.choice([0.0, 0.0, 0.2])) for i in range(rng.randint(1, 5))}
-        ops, cur_mt, cur = [], mt, dict(seqs)
-        for _ in range(rng.randint(1, 4)):
-            names = list(cur)
-            k = rng.choice(["take_seqs", "take_seqs", "rc", "rc", "to_xna", "degap", "add_seqs", "add", "copy"])
-            if cur_mt == "protein" and k in ("rc", "to_xna"):
+        mt, seqs = _rand_coll(rng)
+        for for_new in (True, False):
+            ops, cur_mt, cur = [], mt, dict(seqs)
+            for _ in range(rng.randint(1, 5)):
+                op = _rand_coll_op(rng, cur_mt, cur, len(ops), for_new)
+                if op is None:
+                    continue
+                ops.append(op)
+                try:
+                    cur_mt, cur = _coll_spec(cur_mt, cur, op)
+                except SpecNone:
+                    break
+            if not ops:
                 continue
-            if k == "take_seqs":
-                sel = rng.sample(names, rng.randint(1, len(names)))
-                op = ["take_seqs", sel, rng.random() < 0.3 and len(sel) < len(names)]
-            elif k == "to_xna":
-                op = ["to_rna"] if cur_mt == "dna" else ["to_dna"]
-            elif k == "add_seqs":
-                op = ["add_seqs", {f"y{len(ops)}": _rand_row(rng, rng.randint(1, 9), cur_mt, 0.0)}]
-            elif k == "add":
-                order = list(names)
-                rng.shuffle(order)
-                op = ["add", order]
-            elif k == "copy":
-                op = ["copy", rng.choice(["deepcopy", "copy", "rich_dict"])]
-            else:
-                op = [k]
-            ops.append(op)
-            cur_mt, cur = _coll_spec(cur_mt, cur, op)
-        for impl in ("old", "new"):
-            if ops and _run_coll(out, impl, mt, seqs, ops):
-                out["nontrivial"].add(("coll", impl, mt, str(seqs), str(ops)))
+            for impl in (("old", "new") if for_new else ("old",)):
+                if _run_coll(out, impl, mt, seqs, ops):
+                    out["nontrivial"].add(("coll", impl, mt, str(seqs), str(ops)))
 
 
 def _regression_corpus(out, rng):
@@ -1740,7 +1910,29 @@ def match_finding(f, k):
         if not isinstance(got, dict) or ops[-1][0] == "rc" or set(got) != set(cur):
             return False
         new_names = set(ops[-1][1]) if ops[-1][0] == "add_seqs" else set()
+        want = f.get("expected") if isinstance(f.get("expected"), dict) else {}
+        if ops[-1][0] == "rename_seqs":
+            # only a name the renamer CHANGES loses its reversed record; the others must be right
+            ren = _renamer(ops[-1][1], ops[-1][2])
+            new_names = {n for n in ops[-1][2] if ren(n) == n}
+            if any(got[n] != want.get(n) for n in got if n in new_names):
+                return False
         if any(got[n] != cur[n] for n in got if n not in new_names):
+            return False
+    if r.get("pad_wrong_end"):
+        # exactly ONE wrong answer: every sequence padded in FRONT of what it displayed (the padding was appended to the
+        # stored plus-strand data of a reversed sequence)
+        try:
+            mt, cur = inp["moltype"], dict(inp["seqs"])
+            for op in ops[:-1]:
+                mt, cur = _coll_spec(mt, cur, op)
+            _, want = _coll_spec(mt, cur, ops[-1])
+        except Exception:
+            return False
+        got = f.get("got")
+        if ops[-1][0] != "pad_seqs" or not isinstance(got, dict) or list(got) != list(want):
+            return False
+        if any(got[n] != "-" * (len(want[n]) - len(cur[n])) + cur[n] for n in got):
             return False
     if r.get("got") and str(f.get("got")) != r["got"]:
         # the finding explains one exception class only (another exception, or wrong rows, is a different violation)
